@@ -233,7 +233,11 @@ func GenScenario(r *rand.Rand, family string, idx int, o Opt) Scenario {
 		sc.ChunkBytes = 300
 		sc.MaxPending = 10
 		s := []upstream.Step{{Kind: "neverack"}}
-		for i := 1 + r.Intn(3); i > 0; i-- {
+		// the first one resets at once: with the connection already reset when the recovery session starts (the checks delay
+		// the session start by a few milliseconds at worker.session.beforeStore) the very first re-send fails in the client's
+		// hand, which is the state "in-flight chunk + older leftovers still unsent"
+		s = append(s, upstream.Step{Kind: "reset", N: 0})
+		for i := r.Intn(3); i > 0; i-- {
 			s = append(s, upstream.Step{Kind: "reset", N: r.Intn(3), AckLast: false})
 		}
 		cs := conns()
